@@ -282,6 +282,22 @@ def evBlocksFloor : Ev → List Nat
 
 def releasedFloor (evs : List Ev) : List Nat := (evs.map evBlocksFloor).flatten
 
+/-- `Pieces.Hole(index, 0)` on the block table of one piece: the first missing block and the
+    number of missing blocks from there up to the next present one (or the end of the piece) -/
+def hole (blocks : List (Option Bytes)) : Option (Nat × Nat) :=
+  let first := blocks.findIdx (·.isNone)
+  if first ≥ blocks.length then none
+  else some (first, ((blocks.drop first).takeWhile (·.isNone)).length)
+
+/-- the range maybeWebseed fetches when nothing is in flight and the hole is below the 1 MiB cap:
+    from the first missing block to the next present block or the end of the piece -/
+def maybeRange (s : Store) : Option (Nat × Nat) :=
+  match s.mode with
+  | .opn =>
+    (hole s.blocks).map fun (f, n) =>
+      (f * CS, if f + n ≥ s.blocks.length then s.pl - f * CS else n * CS)
+  | _ => none
+
 /-! ## parseContentRange (fmt.Sscanf transcribed) -/
 
 def isSpaceC (c : Char) : Bool :=
@@ -465,40 +481,52 @@ structure GROut where
 section
 variable {σ : Type} (add : σ → Nat → Bytes → σ × AddRes)
 
-/-- one iteration of the loop: returns (n, err?) like `Get` / io.Copy -/
-def grOne (fixed : Bool) (st : σ) (w : W) (fc : FileChunk) (r : Resp) :
-    σ × W × Nat × Option String × List Ev × Bool :=
+/-- the reader `Get` copies from: the body, behind `io.LimitReader` when a limit was decided -/
+def grSrc (lim : Option Int) (body : Src) : Src :=
+  match lim with
+  | some n => limitSrc body n.toNat
+  | none => body
+
+/-- result of one iteration of the loop: `(n, err)` as returned by `Get` / `io.Copy` -/
+structure GOne (σ : Type) where
+  st : σ
+  w : W
+  n : Nat
+  err : Option String
+  evs : List Ev
+  panic : Bool
+
+def grOne (fixed : Bool) (st : σ) (w : W) (fc : FileChunk) (r : Resp) : GOne σ :=
   match r with
   | .pad =>
-    let (st', w', o) := readFrom add fixed st w (zeroSrc fc.length.toNat)
+    let x := readFrom add fixed st w (zeroSrc fc.length.toNat)
     -- io.Copy reports ReadFrom's error
-    (st', w', o.n, if o.err = .nil then none else some "copy", o.evs, o.panic)
-  | .transport => (st, w, 0, some "transport", [], false)
+    ⟨x.1, x.2.1, x.2.2.n, if x.2.2.err = .nil then none else some "copy", x.2.2.evs, x.2.2.panic⟩
+  | .transport => ⟨st, w, 0, some "transport", [], false⟩
   | .http status cl cr body =>
     match grDecide fixed status cl cr fc.filelength fc.offset fc.length with
-    | .reject why => (st, w, 0, some why.name, [], false)
+    | .reject why => ⟨st, w, 0, some why.name, [], false⟩
     | .accept lim =>
-      let src := match lim with
-        | some n => limitSrc body n.toNat
-        | none => body
-      let (st', w', o) := readFrom add fixed st w src
-      (st', w', o.n, none, o.evs, o.panic)                    -- Get returns (n, nil)
+      let x := readFrom add fixed st w (grSrc lim body)
+      ⟨x.1, x.2.1, x.2.2.n, none, x.2.2.evs, x.2.2.panic⟩                  -- Get returns (n, nil)
+
+def noteReq (acc : GROut) (fc : FileChunk) (r : Resp) : GROut :=
+  match r with
+  | .pad => acc
+  | _ => { acc with reqs := acc.reqs ++ [(fc.idx, fc.offset, fc.offset + fc.length - 1)] }
 
 def grLoop (fixed : Bool) : σ → W → List FileChunk → List Resp → GROut → σ × W × GROut
   | st, w, [], _, acc => (st, w, acc)
   | st, w, fc :: fcs, rs, acc =>
     let r := rs.headD .transport
-    let acc := match r with
-      | .pad => acc
-      | _ => { acc with reqs := acc.reqs ++ [(fc.idx, fc.offset, fc.offset + fc.length - 1)] }
-    let (st', w', n, err, evs, p) := grOne add fixed st w fc r
-    let acc := { acc with evs := acc.evs ++ evs, panic := acc.panic || p }
-    if p then (st', w', acc)
-    else match err with
-      | some e => (st', w', { acc with log := acc.log ++ [e] })
+    let x := grOne add fixed st w fc r
+    let acc' : GROut := { noteReq acc fc r with evs := acc.evs ++ x.evs, panic := acc.panic || x.panic }
+    if x.panic then (x.st, x.w, acc')
+    else match x.err with
+      | some e => (x.st, x.w, { acc' with log := acc'.log ++ [e] })
       | none =>
-        if (n : Int) ≠ fc.length then (st', w', acc)                       -- silent break
-        else grLoop fixed st' w' fcs rs.tail acc
+        if (x.n : Int) ≠ fc.length then (x.st, x.w, acc')                   -- silent break
+        else grLoop fixed x.st x.w fcs rs.tail acc'
 
 /-- tor.webseedGR: fileChunks, a writer for the whole range, the loop, deferred Close -/
 def webseedGR (fixed : Bool) (st : σ) (fcs : List FileChunk) (offset length : Nat)
